@@ -763,3 +763,111 @@ Example ex_run :
   (exists s, run_eager ex_prog 10 9 ex_events = Some s /\ ctl_ s = CDone (Final 2 15)) /\
   timely_from 9 ex_events = true /\ 10 + sum_dur ex_prog = 15.
 Proof. vm_compute. split; [eexists; split; reflexivity | split; reflexivity]. Qed.
+
+(* ------------------------------------------------------------------ re-execution of one machine *)
+Lemma exec_state_nil : forall h0, exec_state [] h0 = init_state h0.
+Proof. reflexivity. Qed.
+
+(* executions of one machine are independent: a history is possible iff every execution in it
+   is a behaviour of a FRESH machine (nothing is carried from one Execute to the next) *)
+Lemma hist_independent : forall rs ss,
+  run_history rs = Some ss <->
+  Forall2 (fun r s => run (c_prog r) (c_start r) (c_h0 r) (c_events r) = Some s) rs ss.
+Proof.
+  unfold run_history. induction rs as [|r t IH]; intros ss; cbn [run_hist_from].
+  - split.
+    + intros H. inversion H. constructor.
+    + intros H. inversion H. reflexivity.
+  - rewrite exec_state_nil. fold (run (c_prog r) (c_start r) (c_h0 r) (c_events r)).
+    destruct (run (c_prog r) (c_start r) (c_h0 r) (c_events r)) as [s|] eqn:E.
+    + cbn [carried]. destruct (run_hist_from false [] t) as [ss'|] eqn:Et.
+      * split.
+        -- intros H. inversion H; subst. constructor; [exact E|]. apply IH. reflexivity.
+        -- intros H. inversion H as [|r' s' t' ss'' Hr Ht]; subst.
+           apply IH in Ht. rewrite E in Hr. inversion Hr; subst. inversion Ht; subst. reflexivity.
+      * split; [discriminate|].
+        intros H. inversion H as [|r' s' t' ss'' Hr Ht]; subst. apply IH in Ht. discriminate.
+    + split; [discriminate|]. intros H. inversion H as [|r' s' t' ss'' Hr Ht]; subst.
+      rewrite E in Hr. discriminate.
+Qed.
+
+Lemma hist_run_of : forall rs ss r, run_history rs = Some ss -> In r rs ->
+  exists s, run (c_prog r) (c_start r) (c_h0 r) (c_events r) = Some s.
+Proof.
+  intros rs ss r H. apply hist_independent in H. induction H as [|r' s' t ss' Hr Ht IH]; intros Hin.
+  - destruct Hin.
+  - destruct Hin as [<-|Hin]; [exists s'; exact Hr|apply IH; exact Hin].
+Qed.
+
+(* a message handed to a state was accepted from the channel during THAT execution, while the
+   machine that runs this execution had it as its oldest unhanded message *)
+Lemma hist_messages_stay : forall rs ss r pre k m post,
+  run_history rs = Some ss -> In r rs -> c_events r = pre ++ MRecv k m :: post ->
+  length (nexts pre) = k /\ length (waiters pre) = S k /\
+  nth_error (accepted pre) (length (recvs pre)) = Some m /\ dones pre = [].
+Proof.
+  intros rs ss r pre k m post H Hin E. destruct (hist_run_of rs ss r H Hin) as [s Hs].
+  rewrite E in Hs. exact (messages_to_current_only _ _ _ _ _ _ _ _ Hs).
+Qed.
+
+Lemma hist_end_block : forall rs ss r pre k h post,
+  run_history rs = Some ss -> In r rs -> c_events r = pre ++ MDone (Final k h) :: post ->
+  S k = length (c_prog r) /\ h = (c_start r + sum_dur (c_prog r)) mod two64.
+Proof.
+  intros rs ss r pre k h post H Hin E. destruct (hist_run_of rs ss r H Hin) as [s Hs].
+  rewrite E in Hs. destruct (end_block _ _ _ _ _ _ _ _ Hs) as [A [_ [B _]]]. split; assumption.
+Qed.
+
+(* a machine that kept ONE receive buffer for its whole life would hand the first state of a
+   later execution a message that arrived during an earlier, aborted one *)
+Definition reuse_run1 : trace_case :=
+  {| c_prog := [ {| delay := 1; active := 1; init_err := true; next_err := false |} ];
+     c_start := 10; c_h0 := 9; c_total := None; c_eager := true; c_settled := true;
+     c_events := [ MWait 10; EMsg 1 true; EBlock 10; MWait 11; EBlock 11; MInit 0 11;
+                   MDone (ErrInit 0) ] |}.
+Definition reuse_run2 : trace_case :=
+  {| c_prog := [ {| delay := 0; active := 1; init_err := false; next_err := false |} ];
+     c_start := 12; c_h0 := 11; c_total := None; c_eager := true; c_settled := true;
+     c_events := [ MWait 12; EBlock 12; MWait 12; MInit 0 12; MWaiter 13; MRecv 0 1;
+                   EBlock 13; MNext 0; MDone (Final 0 13) ] |}.
+Lemma reused_buffer_refuted :
+  (exists ss, run_hist_from true [] [reuse_run1; reuse_run2] = Some ss) /\
+  In (MRecv 0 1) (c_events reuse_run2) /\ ~ In 1 (accepted (c_events reuse_run2)) /\
+  run_history [reuse_run1; reuse_run2] = None /\ spec_hist [reuse_run1; reuse_run2] = false.
+Proof.
+  split; [eexists; vm_compute; reflexivity|].
+  split; [vm_compute; tauto|]. split; [vm_compute; tauto|]. split; vm_compute; reflexivity.
+Qed.
+
+(* soundness of the executable form over a history *)
+Lemma spec_hist_sound : forall rs, spec_hist rs = true ->
+  forall r, In r rs ->
+  (forall pre k m post, c_events r = pre ++ MRecv k m :: post ->
+     length (nexts pre) = k /\ length (waiters pre) = S k /\
+     nth_error (accepted pre) (length (recvs pre)) = Some m) /\
+  (forall pre k h post, c_events r = pre ++ MDone (Final k h) :: post ->
+     S k = length (c_prog r) /\ h = (c_start r + sum_dur (c_prog r)) mod two64).
+Proof.
+  intros rs H r Hin. unfold spec_hist in H. rewrite forallb_forall in H. specialize (H r Hin).
+  destruct (spec_sound r H) as [_ [B [C _]]]. split.
+  - exact C.
+  - intros pre k h post E. destruct (B pre k h post E) as [B1 [B2 _]]. split; assumption.
+Qed.
+
+Lemma model_passes_spec_hist : forall rs,
+  (forall r, In r rs -> c_eager r = true /\ total_ok (c_prog r) (c_total r) /\
+     exists s, run_eager (c_prog r) (c_start r) (c_h0 r) (c_events r) = Some s) ->
+  spec_hist rs = true.
+Proof.
+  intros rs H. unfold spec_hist. apply forallb_forall. intros r Hin.
+  destruct (H r Hin) as [He [Ht [s Hs]]]. destruct r as [p st h0 tot eg se evs].
+  cbn in He, Ht, Hs. subst eg. exact (model_passes_spec p st h0 tot evs s se Ht Hs).
+Qed.
+
+Example hist_example :
+  exists ss, run_history [reuse_run1;
+    {| c_prog := c_prog reuse_run2; c_start := 12; c_h0 := 11; c_total := None; c_eager := true;
+       c_settled := true;
+       c_events := [ MWait 12; EBlock 12; MWait 12; MInit 0 12; MWaiter 13; EMsg 2 true;
+                     MRecv 0 2; EBlock 13; MNext 0; MDone (Final 0 13) ] |}] = Some ss.
+Proof. eexists. vm_compute. reflexivity. Qed.
